@@ -177,8 +177,13 @@ def gen_style(rng, plain=False):
 
 def gen_s1(rng, nboards=None, table=None):
     """A conforming-session scenario."""
+    long_session = False
     if nboards is None:
         nboards = rng.choice((1, 1, 1, 2, 2, 3, 4))
+        if rng.random() < 0.04:
+            # an occasional long session (state that accumulates over boards, counters, queues)
+            nboards = rng.randint(5, 14)
+            long_session = True
     boards = [gen_board(rng, i) for i in range(nboards)]
     ns = gen_team_name(rng)
     ew = gen_team_name(rng) if rng.random() < 0.9 else ns
@@ -196,6 +201,12 @@ def gen_s1(rng, nboards=None, table=None):
         for s in rb.SEATS:
             seats[s]['kind'] = pk
         script = [{'calls': [], 'cards': [], 'style': pk} for _ in boards]
+    elif long_session:
+        # mostly cheap boards so that a long session costs about as much as a 3-board one
+        script = []
+        for b in boards:
+            script.extend(gen_script(rng, [b], style=rng.choice(('allpass', 'allpass', 'short',
+                                                                 'competitive'))))
     else:
         script = gen_script(rng, boards)
     return {
